@@ -44,7 +44,8 @@ func runC17(p *Program, r *Report) {
 	call, _ := site.Store.Val.(*ssa.Call)
 	var marshalCall *ssa.Call
 	if call == nil || staticCallee(call.Common()) == nil || fnName(staticCallee(call.Common())) != "fmt.Sprintf" {
-		r.Viol("C17.R1", cname+"#frame", site.Pos, "the script text is not produced by fmt.Sprintf: "+site.Val.String(), "")
+		// another spelling (concatenation, a Builder, a helper): decide the frame by the language of the stored text
+		marshalCall = c17FrameByLanguage(p, r, s, fn, site, cname)
 	} else {
 		format, okf := constString(call.Common().Args[0])
 		args, oka := variadicArgs(call.Common().Args[1])
@@ -192,4 +193,48 @@ func runC17(p *Program, r *Report) {
 			r.Viol("C17.R4", c, pos, "an error return carries a non-zero Script: "+pv.Of(v0).String(), "")
 		}
 	}
+}
+
+// c17FrameByLanguage: the stored script text, as a language (E9), must be inside
+// "var " NAME " = " JSON ";\n" Σ*, where JSON is what encoding/json.Marshal returns in HTML-safe
+// mode. It returns the unique encoding/json.Marshal call of the function (for the encoder rules).
+func c17FrameByLanguage(p *Program, r *Report, s *Summarizer, fn *ssa.Function, site CtorSite, cname string) *ssa.Call {
+	oe := newOutEval(p, s)
+	fr := &oframe{fn: fn, env: termEnv{}, bind: map[ssa.Value]*lx{}}
+	for i, prm := range fn.Params {
+		if isStringish(prm.Type()) {
+			fr.env[prm] = Term{Param: i}
+		}
+	}
+	x := oe.strLx(site.Store.Val, site.Store.Block(), fr)
+	// the script parameter is a compile-time constant of the caller: any text
+	const spec = `var [$_A-Za-z][$_A-Za-z0-9]* = [^<>&\x{2028}\x{2029}\x00-\x1f]*;\n[\s\S]*`
+	d, L, err := oe.Language(x, func(L *Lang) { L.MustRe(spec) })
+	switch {
+	case err != nil:
+		r.Undec("C17.R1", cname+"#frame", site.Pos, "the language of the script text could not be computed: "+err.Error())
+	default:
+		if ok, w := relang.Subset(d, L.FullRe(spec)); ok {
+			r.OK("C17.R1", cname+"#frame", site.Pos, "by language: the stored text "+x.String()+" ⊆ \"var \" NAME \" = \" JSON \";\\n\" SCRIPT")
+			r.OK("C17.R1", cname+"#args", site.Pos, "by language: name, encoder output and script occur in this order")
+		} else if len(oe.Problems) > 0 {
+			r.Undec("C17.R1", cname+"#frame", site.Pos, "the script text is built in a way the evaluator cannot follow ("+oe.Problems[0]+"); "+x.String())
+		} else {
+			r.Viol("C17.R1", cname+"#frame", site.Pos, "the stored text "+x.String()+" is not always of the form var NAME = JSON;\\nSCRIPT", w)
+		}
+	}
+	var found []*ssa.Call
+	for _, b := range fn.Blocks {
+		for _, in := range b.Instrs {
+			if c, ok := in.(*ssa.Call); ok {
+				if g := staticCallee(c.Common()); g != nil && fnName(g) == "encoding/json.Marshal" {
+					found = append(found, c)
+				}
+			}
+		}
+	}
+	if len(found) == 1 {
+		return found[0]
+	}
+	return nil
 }
